@@ -44,11 +44,29 @@ class MapSpec(H.Spec):
         self.SD = SortableDict
         self.MO = hszinc.MetadataObject
 
+    INITIALS = {'pairs': [['b', 1], ['a', 2]], 'pairs-with-repeated-key': [['a', 1], ['b', 2], ['a', 3]], 'tuple-of-pairs': (('c', 1), ('a', 2), ('c', 2)),
+                'dict': {'c': 1, 'a': 2}, 'generator': [['d', 1], ['d', 2], ['a', 1]]}
+
     def roots(self):
-        return ['SortableDict', 'MetadataObject']
+        # an empty map, and maps built by the constructor from initial content (= the same item stores, one after the other)
+        return ['SortableDict', 'MetadataObject'] + ['SortableDict:' + k for k in sorted(self.INITIALS)] + ['MetadataObject:pairs-with-repeated-key']
 
     def fresh(self, root):
-        return (self.SD() if root == 'SortableDict' else self.MO()), Model()
+        cls, _, init = root.partition(':')
+        make = self.SD if cls == 'SortableDict' else self.MO
+        if not init:
+            return make(), Model()
+        src = self.INITIALS[init]
+        m = Model()
+        for k, v in (src.items() if isinstance(src, dict) else src):
+            if m.has(k):
+                m.p[m.idx(k)][1] = v
+            else:
+                m.p.append([k, v])
+        arg = dict(src) if isinstance(src, dict) else ((tuple(x) for x in src) if init == 'generator' else [tuple(x) for x in src])
+        if init == 'tuple-of-pairs':
+            arg = tuple(tuple(x) for x in src)
+        return make(arg), m
 
     def val(self, v):
         return self.hs.MARKER if v == 'M' else v
